@@ -361,6 +361,21 @@ Definition header_schemes (L : locs) (reqs : list requirement) : list scheme :=
 Definition strip_fields (L : locs) (reqs : list requirement) : list cattr :=
   flat_map (fun s => match attr_of s with Some a => [a] | None => [] end) (header_schemes L reqs).
 
+(* expr/http_endpoint.go Finalize: the location class recorded on each scheme of an endpoint's
+   own copy of the requirements (SchemeExpr.In). It is a function of the METHOD's mapping only:
+   sibling methods inheriting the same service / API requirement each get their own. *)
+Definition in_of_loc (l : loc) : string :=
+  match l with LHeader _ => "header" | LQuery => "query" | LBody => "body" end.
+
+Definition scheme_in (L : locs) (s : scheme) : string :=
+  match attr_of s with
+  | Some a => in_of_loc (loc_of L a)
+  | None => match s_kind s with Basic => "header" | _ => "" end
+  end.
+
+Definition endpoint_ins (L : locs) (reqs : list requirement) : list (list (string * string)) :=
+  map (fun r => map (fun s => (s_name s, scheme_in L s)) (r_schemes r)) reqs.
+
 (* the hypothesis of the _partial theorems: the negation of the recorded findings *)
 Definition wire_safe (L : locs) (p : creds) : Prop :=
   (forall b, In b (p_user p) -> N.eqb b 58 = false) /\
